@@ -15,6 +15,55 @@ Proof. exact (conj src_prune_ok (conj src_bump_clause (conj src_rbuild_clauses s
 Print Assumptions consts_ok.
 
 (* ================================================================== *)
+(* which build a tag stands for (finalize_build_tag_info, get_builds_numbers, BuildNumData.cmp) *)
+
+(* the three routes of finalize_build_tag_info, in the order and with the tests the model has
+   (the guessed major is tested with `is not None`) *)
+Theorem tag_routes_ok : src_tag_routes = [RouteKnown; RouteGuessIsNotNone; RouteSaved].
+Proof. exact src_tag_routes_ok. Qed.
+Print Assumptions tag_routes_ok.
+
+(* build_<n>_release_<M>_<m>_success is build M.m.n for EVERY M, m, n (0 included), whatever is saved in
+   the commit; an overridden tag format that delivers major.minor keeps them; any other tag text takes
+   major.minor from the saved version and is '?'.'?'.n without one *)
+Theorem tag_build_number : forall saved M m n,
+  finalize_tag saved (TagRelease M m, n) = (M, m, n) /\
+  finalize_tag saved (TagFull M m, n) = (M, m, n) /\
+  finalize_tag (Some (M, m)) (TagWord, n) = (M, m, n) /\
+  finalize_tag None (TagWord, n) = (qm, qm, n).
+Proof.
+  intros. repeat split.
+Qed.
+Print Assumptions tag_build_number.
+
+(* ... so a pin finds that build in a version map iff it names exactly major.minor.build *)
+Theorem release_tag_pin : forall saved M m n pin,
+  bn_eqb (finalize_tag saved (TagRelease M m, n)) pin = true <-> pin = (M, m, n).
+Proof. exact release_tag_pin_l. Qed.
+Print Assumptions release_tag_pin.
+
+(* get_builds_numbers neither loses nor invents a build of the commit *)
+Theorem builds_numbers_complete : forall saved tags,
+  Permutation (builds_numbers saved tags) (map (finalize_tag saved) tags).
+Proof. exact builds_numbers_perm. Qed.
+Print Assumptions builds_numbers_complete.
+
+(* BuildNumData.cmp: lexicographic on numbered builds (0 is the smallest number, not "missing"),
+   every numbered build below every '?' build, and total *)
+Theorem build_number_order :
+  (forall a b, int_bn a -> int_bn b -> (bn_leb a b = true <-> lex_le a b)) /\
+  (forall a n, int_bn a -> bn_leb a (qm, qm, n) = true /\ bn_leb (qm, qm, n) a = false) /\
+  (forall a b, bn_leb a b = true \/ bn_leb b a = true).
+Proof. exact (conj bn_leb_int (conj bn_leb_qm bn_leb_total)). Qed.
+Print Assumptions build_number_order.
+
+Example build_number_order_ex :
+  builds_numbers None [(TagWord, 7); (TagRelease 0 10, 7); (TagRelease 0 9, 8); (TagFull 0 9, 0)]%Z
+  = [(0, 9, 0); (0, 9, 8); (0, 10, 7); (qm, qm, 7)]%Z.
+Proof. vm_compute. reflexivity. Qed.
+Print Assumptions build_number_order_ex.
+
+(* ================================================================== *)
 (* repositories are analysed components first, whatever the supply order *)
 
 (* sorted_repos is a permutation of the supplied repositories in which every
